@@ -85,9 +85,11 @@ def _v_files() -> list[str]:
     return sorted(str(p.relative_to(COQ)) for p in THEORIES.rglob("*.v"))
 
 
-def coq_build(pre: Callable[[], None] | None = None) -> Build:
-    """Full .vo build of every theory file (make -k, so that a broken proof
-    file does not hide the state of the others)."""
+def coq_build(pre: Callable[[], None] | None = None,
+              targets: Sequence[str] | None = None) -> Build:
+    """Full .vo build (make -k, so that a broken proof file does not hide the
+    state of the others) of `targets` (relative .v paths under coq/) and
+    everything they depend on; of every theory file when targets is None."""
     b = Build()
     t0 = time.time()
     COQ.mkdir(exist_ok=True)
@@ -105,7 +107,23 @@ def coq_build(pre: Callable[[], None] | None = None) -> Build:
             lst.write_text(listing)
             r = sh(["coq_makefile", "-f", "_CoqProject.all", "-o", "Makefile"], cwd=COQ)
             b.log += r.stdout
-        r = sh(f"timeout 3000 make -k -j{JOBS} 2>&1", cwd=COQ, timeout=3100)
+        if targets is None:
+            want = files
+            goal = ""
+        else:
+            want = sorted({d for t in targets if (COQ / t).exists() for d in transitive_deps(t)})
+            goal = " ".join(w[:-2] + ".vo" for w in want)
+        # The global lock only protects the Makefile; the build itself takes a
+        # lock per goal set, so checks of different properties do not queue
+        # behind one long proof file.
+        fcntl.flock(lock, fcntl.LOCK_UN)
+        glock = open(COQ / (".lock." + hashlib.sha1(goal.encode()).hexdigest()[:12]), "w")
+        fcntl.flock(glock, fcntl.LOCK_EX)
+        try:
+            r = sh(f"timeout 3000 make -k -j{JOBS} {goal} 2>&1", cwd=COQ, timeout=3100)
+        finally:
+            fcntl.flock(glock, fcntl.LOCK_UN)
+            glock.close()
         b.log += r.stdout
         # which targets failed?
         for m in re.finditer(r"\*\*\* \[[^\]]*?:\s*(theories/\S+?)\.vo\] Error", r.stdout):
@@ -116,7 +134,7 @@ def coq_build(pre: Callable[[], None] | None = None) -> Build:
         ):
             if "Error" in m.group(3):
                 b.failed[m.group(1)] = f"line {m.group(2)}: " + m.group(3).strip()[:2000]
-        for f in files:
+        for f in want:
             if f not in b.failed and (COQ / (f[:-2] + ".vo")).exists():
                 b.ok_files.add(f)
             elif f not in b.failed:
@@ -313,10 +331,12 @@ def _coqc_cases(path: Path) -> tuple[int, str]:
 
 
 def run_cases(tag: str, imports: str, defs: str, cases: Sequence[str],
-              *, shard: int = 250) -> dict[str, Any]:
+              *, shard: int = 250, flagged: bool = False) -> dict[str, Any]:
     """Each case is a Coq term of type bool that is `true` iff the model agrees
-    with the implementation outcome embedded in it. Returns the indexes of the
-    cases that evaluate to false (and build errors, which are harness bugs)."""
+    with the implementation outcome embedded in it (with flagged=True: a pair
+    (agrees, flag) : bool * bool; the cases whose flag is true are returned in
+    "flag" - used for "outside the model" accounting). Returns the indexes of
+    the cases that evaluate to false (and build errors, which are harness bugs)."""
     d = CASES_DIR / tag
     if d.exists():
         shutil.rmtree(d)
@@ -325,29 +345,42 @@ def run_cases(tag: str, imports: str, defs: str, cases: Sequence[str],
     for si in range(0, len(cases), shard):
         chunk = cases[si:si + shard]
         body = [CASE_HEADER.format(imports=imports, defs=defs)]
-        body.append("Definition cases : list (nat * bool) := [")
+        if flagged:
+            body.append("Definition cases0 : list (nat * (bool * bool)) := [")
+        else:
+            body.append("Definition cases : list (nat * bool) := [")
         body.append(";\n".join(f"({si + j}%nat, {c})" for j, c in enumerate(chunk)))
         body.append("].")
-        body.append("Eval vm_compute in (map fst (filter (fun p => negb (snd p)) cases)).")
+        if flagged:
+            body.append("Definition cases1 := Eval vm_compute in cases0.")
+            body.append("Definition cases := map (fun p => (fst p, fst (snd p))) cases1.")
+            body.append("Eval vm_compute in (map fst (filter (fun p => negb (snd p)) cases)).")
+            body.append("Eval vm_compute in (map fst (filter (fun p => snd (snd p)) cases1)).")
+        else:
+            body.append("Eval vm_compute in (map fst (filter (fun p => negb (snd p)) cases)).")
         f = d / f"s{si // shard:04d}.v"
         f.write_text("\n".join(body) + "\n")
         files.append(f)
     t0 = time.time()
     bad: list[int] = []
+    flag: list[int] = []
     errors: list[str] = []
     with ThreadPoolExecutor(max_workers=JOBS) as ex:
         for f, (rc, out) in zip(files, ex.map(_coqc_cases, files)):
             if rc != 0:
                 errors.append(f"{f.name}: {out[-800:]}")
                 continue
-            m = re.search(r"=\s*(\[[^\]]*\]|nil)\s*:\s*list nat", out, re.S)
-            if not m:
+            ms = re.findall(r"=\s*(\[[^\]]*\]|nil)\s*:\s*list nat", out, re.S)
+            if len(ms) != (2 if flagged else 1):
                 errors.append(f"{f.name}: unparsed output {out[-300:]}")
                 continue
-            bad += [int(x) for x in re.findall(r"\d+", m.group(1))]
+            bad += [int(x) for x in re.findall(r"\d+", ms[0])]
+            if flagged:
+                flag += [int(x) for x in re.findall(r"\d+", ms[1])]
     if not errors:
         shutil.rmtree(d, ignore_errors=True)
-    return {"n": len(cases), "bad": sorted(bad), "errors": errors, "wall": time.time() - t0}
+    return {"n": len(cases), "bad": sorted(bad), "flag": sorted(flag), "errors": errors,
+            "wall": time.time() - t0}
 
 
 def eval_terms(tag: str, imports: str, defs: str, terms: Sequence[str]) -> list[str]:
@@ -492,7 +525,8 @@ def proof_stage(chk: Check, build: Build, needed: Sequence[str]) -> bool:
 
 
 def correspond(chk: Check, tag: str, imports: str, defs: str,
-               items: Sequence[dict[str, Any]], *, what: str, shard: int = 250) -> dict[str, Any]:
+               items: Sequence[dict[str, Any]], *, what: str, shard: int = 250,
+               flagged: bool = False) -> dict[str, Any]:
     """Run the model on the cases and report disagreements.
 
     items: dicts with
@@ -503,7 +537,9 @@ def correspond(chk: Check, tag: str, imports: str, defs: str,
     no-failing-input-found (the direct oracle of the caller has had its chance
     before: call this after the oracle loop), unless an oracle violation was
     already filed in this run."""
-    rc = run_cases(tag, imports, defs, [it["case"] for it in items], shard=shard)
+    rc = run_cases(tag, imports, defs, [it["case"] for it in items], shard=shard, flagged=flagged)
+    if flagged:
+        chk.coverage["outside_model_cases"] = chk.coverage.get("outside_model_cases", 0) + len(rc["flag"])
     for e in rc["errors"]:
         chk.notes.append("coq case error: " + e[:400])
     if rc["bad"]:
